@@ -999,6 +999,43 @@ func (r *boundsResult) transfer(b *ssa.BasicBlock, s cstate, stop ssa.Instructio
 			r.sliceFacts(s, x)
 		case *ssa.Convert:
 			// []rune(string): nothing known
+		case *ssa.BinOp:
+			// r = a - b with two variable operands (rest := len(S) - cnt): what is known about a - b, and about b,
+			// bounds r against 0 and against a
+			if x.Op != token.SUB {
+				break
+			}
+			if bt, okb := x.Type().Underlying().(*types.Basic); !okb || bt.Kind() != types.Int {
+				break
+			}
+			if _, isConst := x.Y.(*ssa.Const); isConst {
+				break
+			}
+			a, b := te.term(x.X), te.term(x.Y)
+			if !a.ok || !b.ok {
+				break
+			}
+			s.close()
+			rk := regKey(x)
+			get := func(p, q string) (int64, bool) {
+				if p == q {
+					return 0, true
+				}
+				v, ok := s[pair{p, q}]
+				return v, ok
+			}
+			if v, ok := get(b.key, a.key); ok { // b - a <= v'  =>  r >= -v'
+				s.add(zeroTerm, rk, v+b.off-a.off)
+			}
+			if v, ok := get(a.key, b.key); ok { // a - b <= v'  =>  r <= v'
+				s.add(rk, zeroTerm, v+a.off-b.off)
+			}
+			if v, ok := get(zeroTerm, b.key); ok && a.key != zeroTerm { // b >= lb  =>  r <= a - lb
+				s.add(rk, a.key, a.off+v-b.off)
+			}
+			if v, ok := get(b.key, zeroTerm); ok && a.key != zeroTerm { // b <= ub  =>  r >= a - ub
+				s.add(a.key, rk, v+b.off-a.off)
+			}
 		}
 	}
 	return s
